@@ -64,7 +64,7 @@ MCInit ==
        /\ alive = {k \in Keys : k # 3 \/ r3.live}
   /\ held = [k \in Keys |-> {}] /\ lock = [x \in Idx |-> ""]
   /\ pc = [p \in Procs |-> "idle"] /\ req = [p \in Procs |-> NoReq]
-  /\ cand = [p \in Procs |-> {}] /\ walk = [p \in Procs |-> <<>>] /\ res = [p \in Procs |-> <<>>]
+  /\ cand = [p \in Procs |-> {}] /\ walk = [p \in Procs |-> {}] /\ res = [p \in Procs |-> <<>>]
   /\ todo = [p \in Procs |-> <<>>] /\ out = [p \in Procs |-> <<>>]
   /\ owner = [k \in Keys |-> ""] /\ bad = {} /\ used = {} /\ nops = 0
 
@@ -80,7 +80,7 @@ MCSpec == MCInit /\ [][MCNext]_vars
 \* beacon.select.exit = end of the walk with the lock held, patchexpired.selected = pc "fin" before the first
 \* patch): everything between two gates runs without interruption, an interferer's call runs to completion.
 \* A process that is waiting for a lock is not busy.
-WalkOver(q) == walk[q] = <<>> \/ Len(res[q]) >= EffN(req[q])
+WalkOver(q) == walk[q] = {} \/ Len(res[q]) >= EffN(req[q])
 Busy(q) ==
   \/ pc[q] = "walk" /\ ~WalkOver(q)
   \/ pc[q] = "fin" /\ req[q].kind \in {"se", "sm"}
